@@ -357,6 +357,17 @@ func (eng *Engine) resolveType(e ast.Expr, pkgPath string) types.Type {
 		if k != nil && v != nil {
 			return types.NewMap(k, v)
 		}
+	case *ast.ChanType:
+		if el := eng.resolveType(t.Value, pkgPath); el != nil {
+			dir := types.SendRecv
+			if t.Dir == ast.SEND {
+				dir = types.SendOnly
+			} else if t.Dir == ast.RECV {
+				dir = types.RecvOnly
+			}
+			return types.NewChan(dir, el)
+		}
+		return nil
 	case *ast.InterfaceType:
 		if t.Methods == nil || len(t.Methods.List) == 0 {
 			return types.NewInterfaceType(nil, nil).Complete()
